@@ -62,8 +62,14 @@ def popcount (tt : Array Bool) : Nat := tt.foldl (fun acc b => if b then acc + 1
 
 /-- variables on which the truth table over `n` variables depends -/
 def ttSupport (tt : Array Bool) (n : Nat) : List Nat :=
-  (List.range n).filter fun k =>
-    (List.range (2 ^ n)).any fun i => tt[i]! != tt[i ^^^ (1 <<< (n - 1 - k))]!
+  (List.range n).filter fun k => Id.run do
+    for i in [0:2 ^ n] do
+      if tt[i]! != tt[i ^^^ (1 <<< (n - 1 - k))]! then return true
+    return false
+
+/-- the truth-table clauses apply to at most 12 variables, and to BIG diagrams (more than 4096 nodes)
+    over at most 20 variables, where path enumeration is hopeless but 2^20 evaluations are affordable -/
+def useTT (A : Arr) : Bool := numVars A ≤ maxTT || (numVars A ≤ 20 && A.size > 4096)
 
 /-- does the function of `A` depend on `x`, testing all assignments of the variables `vars` (others false) -/
 def dependsOn (A : Arr) (vars : List Nat) (x : Nat) : Bool :=
@@ -149,8 +155,9 @@ def handle (key : String) (ins obs : List String) : Verdict :=
         | some ex, some cl, some bits, some sup, some spv, some sz =>
           let br := brute A
           let canon := reducedAnyOrder A
+          let tt := if useTT A then ttOf A n else #[]
           firstFail [
-            if n ≤ maxTT then (if popcount (ttOf A n) == ex then none else some "exact≠popcount") else none,
+            if useTT A then (if popcount tt == ex then none else some "exact≠popcount") else none,
             match br with | some (_, c) => if c == ex then none else some "exact≠Σpaths" | none => none,
             match br with | some (p, _) => if p == cl then none else some "clause≠#paths" | none => none,
             -- the path iterator documents a panic ("The BDD is not canonical.") on a node with low = high
@@ -158,7 +165,7 @@ def handle (key : String) (ins obs : List String) : Verdict :=
             else if oPaths == "panic" && (List.range A.size).any (fun p => p ≥ 2 && (nodeAt A p).low == (nodeAt A p).high) then none
             else (if oPaths.toNat? == some cl then none else some "clause≠sat_clauses.count"),
             if !canon then none
-            else if n ≤ maxTT then (if ttSupport (ttOf A n) n == sup then none else some "support≠dependence")
+            else if useTT A then (if ttSupport tt n == sup then none else some "support≠dependence")
             else if sup.length ≤ 12 then
               (if sup.all (dependsOn A sup) && (List.range A.size).all (fun p => p < 2 || sup.contains (nodeAt A p).var)
                then none else some "support≠dependence(large)")
@@ -184,7 +191,7 @@ def handle (key : String) (ins obs : List String) : Verdict :=
             if numVars A == n && numVars B == n then none else some "harness:num_vars",
             if cor + cand == ca + cb then none else some "|a∨b|+|a∧b|≠|a|+|b|",
             if cnot + ca == 2 ^ n then none else some "|¬a|≠2^n-|a|",
-            if n ≤ maxTT then (if popcount (ttOf A n) == ca && popcount (ttOf B n) == cb then none else some "exact≠popcount") else none ]
+            if useTT A && useTT B then (if popcount (ttOf A n) == ca && popcount (ttOf B n) == cb then none else some "exact≠popcount") else none ]
         | _, _, _, _, _ => some s!"outcome:{observed}"
       { agree := model == observed, model, fail, nontrivial := A.size > 2 && B.size > 2 && mor.size > 2 && mand.size > 2,
         tags := [s!"law-n{n}", if (oor.toNat?.getD 0) ≥ 2 ^ 64 then "count>2^64" else "count<2^64"] }
